@@ -141,6 +141,7 @@ func runC06(c *Ctx, tier string) {
 	// who constructs CompareFn values: conversions / closures assigned to CompareFn-typed things must be such functions
 	// F1
 	runSortSentinels(c, "C06-F1")
+	runSortKeyOperandsInvariant(c, "C06-F2")
 	// S3
 	spillPeekerCopy(c, "C06-S3")
 }
